@@ -244,3 +244,5 @@ def run(res, facts, tier):
     c04_attrset.run_c01_rule(res, facts, tier)
     from . import c01_keys
     c01_keys.run_rule(res, facts, tier)
+    from . import c01_keyfn
+    c01_keyfn.run_rule(res, facts, tier)
